@@ -56,10 +56,7 @@ def validate(ctx, jobs, cfg="BoolTrace.cfg", module="BoolTrace"):
             continue
         lines = core.read_lines(f)
         for fl in r.fails:
-            sl = core.case_slice(lines, fl["line"])
-            rec = {"prop": fl["prop"], "clause": fl["clause"], "detail": fl["detail"], "case": json.loads(sl[0]),
-                   "event": json.loads(sl[-1]), "harness": {"variant": j["variant"], "args": j["args"]}}
-            (ctx.fails if fl["prop"] == ctx.prop else ctx.other).append(rec)
+            core.fail_rec(ctx, lines, fl, {"harness": {"variant": j["variant"], "args": j["args"]}})
     return res
 
 def confirm(ctx_prop):
@@ -83,7 +80,7 @@ def replay_rec(rec, prop):
     if p.returncode != 0:
         raise core.ModelFailure("replay harness failed: " + p.stderr.decode(errors="replace")[-1000:])
     res = core.validate_traces(rec.get("module", "BoolTrace"), rec.get("cfg", "BoolTrace.cfg"), [out])
-    hit = any(fl["prop"] == prop and fl["clause"] == rec["clause"] for _, r in res for fl in r.fails)
+    hit = any(fl["prop"] in (prop, "ANY") and fl["clause"] == rec["clause"] for _, r in res for fl in r.fails)
     return hit
 
 def replay_file(path, prop):
